@@ -48,9 +48,40 @@ def same(a, b):
 
 
 def oracle_env():
+    import collections
     from scenic.core.vectors import Vector
     return {"max": max, "min": min, "abs": abs, "hypot": math.hypot, "sin": math.sin, "cos": math.cos,
-            "Vector": Vector, "round": round, "__builtins__": {"len": len, "tuple": tuple, "list": list}}
+            "Vector": Vector, "round": round, "namedtuple": collections.namedtuple, "__name__": "oracle",
+            "__builtins__": {"len": len, "tuple": tuple, "list": list, "sum": sum, "type": type, "sorted": sorted,
+                             "max": max, "min": min, "abs": abs}}
+
+
+def tyclass(v):
+    """coarse Python type of a value: numpy scalars count as the Python number types they subclass / mimic."""
+    import numpy
+    if isinstance(v, (bool, numpy.bool_)):
+        return "bool"
+    if isinstance(v, (int, numpy.integer)):
+        return "int"
+    if isinstance(v, (float, numpy.floating)):
+        return "float"
+    return type(v).__name__
+
+
+def same_typed(a, b):
+    """value AND type equality (the kind of container is observable: list vs tuple vs namedtuple)."""
+    if tyclass(a) != tyclass(b):
+        return False
+    if isinstance(a, (tuple, list)):
+        return len(a) == len(b) and all(same_typed(x, y) for x, y in zip(a, b))
+    if isinstance(a, dict):
+        return a.keys() == b.keys() and all(same_typed(a[k], b[k]) for k in a)
+    return same(a, b) != "ne"
+
+
+def enc_any(v):
+    e = enc(v)
+    return e if e[0] != "X" else ["X", tyclass(v) + ":" + repr(v)[:80]]
 
 
 def run_expr_case(case):
@@ -91,43 +122,70 @@ def run_expr_case(case):
         obj = scenario.params[d["var"]]
         leafobjs.append(obj.index if d["kind"] == "mux" else obj)
     samples = []
-    for k in range(case["nsamples"]):
-        random.seed(case["seed"] * 1000 + k)
-        numpy.random.seed(case["seed"] * 1000 + k)
+    plans = [("rand", k) for k in range(case["nsamples"])]
+    corners = case.get("corners")
+    if corners:
+        import itertools
+        vals = []
+        for d in case["defs"]:
+            cv = corners[d["var"]]
+            vals.append([float(x) if d.get("cfloat") else int(x) for x in cv])
+        combos = list(itertools.product(*vals))
+        if len(combos) > case.get("maxcorners", 16):
+            random.Random(case["seed"]).shuffle(combos)
+            combos = combos[:case.get("maxcorners", 16)]
+        plans += [("corner", cb) for cb in combos]
+    for kind, k in plans:
         rec = {}
-        try:
-            if k == 0:
-                # end to end: the public path
-                scene, _ = scenario.generate(maxIterations=200, verbosity=0)
-                sub = scene.sample
-                val = ("ok", scene.params["out"])
-            else:
-                sub = Samplable.sampleAll([o for o in leafobjs if needsSampling(o)])
-                try:
-                    val = ("ok", (sub[dist] if dist in sub else dist.sample(sub)) if needsSampling(dist) else dist)
-                except RejectionException:
-                    continue
-                except Exception as e:
-                    val = ("exc", type(e).__name__, str(e)[:120])
-        except RejectionException:
-            continue
-        except Exception as e:
-            # generate() failed: redo by hand so that the leaves are known
+        if kind == "corner":
+            # the expression evaluated at the extreme values of its leaves (attainable: closed supports)
+            rec["corner"] = True
+            sub = DefaultIdentityDict()
+            for o, v in zip(leafobjs, k):
+                if needsSampling(o):
+                    sub[o] = v
             try:
-                random.seed(case["seed"] * 1000 + k)
-                sub = Samplable.sampleAll([o for o in leafobjs if needsSampling(o)])
-                try:
-                    val = ("ok", (sub[dist] if dist in sub else dist.sample(sub)) if needsSampling(dist) else dist)
-                except RejectionException:
-                    continue
-                except Exception as e2:
-                    val = ("exc", type(e2).__name__, str(e2)[:120])
+                val = ("ok", (sub[dist] if dist in sub else dist.sample(sub)) if needsSampling(dist) else dist)
             except RejectionException:
                 continue
-            except Exception as e3:
-                rec["leaf_exc"] = type(e3).__name__
-                samples.append(rec)
+            except Exception as e:
+                val = ("exc", type(e).__name__, str(e)[:120])
+        else:
+            random.seed(case["seed"] * 1000 + k)
+            numpy.random.seed(case["seed"] * 1000 + k)
+            try:
+                if k == 0:
+                    # end to end: the public path
+                    scene, _ = scenario.generate(maxIterations=200, verbosity=0)
+                    sub = scene.sample
+                    val = ("ok", scene.params["out"])
+                else:
+                    sub = Samplable.sampleAll([o for o in leafobjs if needsSampling(o)])
+                    try:
+                        val = ("ok", (sub[dist] if dist in sub else dist.sample(sub)) if needsSampling(dist) else dist)
+                    except RejectionException:
+                        continue
+                    except Exception as e:
+                        val = ("exc", type(e).__name__, str(e)[:120])
+            except RejectionException:
                 continue
+            except Exception as e:
+                # generate() failed: redo by hand so that the leaves are known
+                try:
+                    random.seed(case["seed"] * 1000 + k)
+                    sub = Samplable.sampleAll([o for o in leafobjs if needsSampling(o)])
+                    try:
+                        val = ("ok", (sub[dist] if dist in sub else dist.sample(sub)) if needsSampling(dist) else dist)
+                    except RejectionException:
+                        continue
+                    except Exception as e2:
+                        val = ("exc", type(e2).__name__, str(e2)[:120])
+                except RejectionException:
+                    continue
+                except Exception as e3:
+                    rec["leaf_exc"] = type(e3).__name__
+                    samples.append(rec)
+                    continue
         env = oracle_env()
         leaves = {}
         try:
@@ -196,18 +254,36 @@ def run_delayed_case(case):
         env.update(case.get("helpers_py_env", {}))
         exec(case.get("helpers_py", ""), env)
         env["self"] = ego
-        rec["props"] = {p: enc(getattr(ego, p)) for p in case["props"]}
+        rec["props"] = {p: enc_any(getattr(ego, p)) for p in case["props"]}
         checks = []
-        for prop, pys in case["checks"]:
+        for chk in case["checks"]:
+            if not isinstance(chk, dict):
+                chk = dict(prop=chk[0], alts=chk[1])
+            prop = chk["prop"]
             got = getattr(ego, prop)
+            typed = chk.get("typed", False)
             alts = []
-            for py in pys:
+            for py in chk.get("alts", []):
                 try:
-                    alts.append(eval(py, env))
+                    alts.append(("ok", eval(py, env)))
                 except Exception as e:
                     alts.append(("exc", type(e).__name__))
-            ok = any(same(got, a) != "ne" for a in alts if not (isinstance(a, tuple) and a and a[0] == "exc"))
-            checks.append(dict(prop=prop, got=enc(got), want=[enc(a) if not (isinstance(a, tuple) and a and a[0] == "exc") else ["E", a[1]] for a in alts], ok=ok))
+            ok = any((same_typed(got, a[1]) if typed else same(got, a[1]) != "ne") for a in alts if a[0] == "ok")
+            res = dict(prop=prop, text=chk.get("text"), got=enc_any(got), got_type=tyclass(got),
+                       want=[(enc_any(a[1]) if a[0] == "ok" else ["E", a[1]]) for a in alts],
+                       want_types=[tyclass(a[1]) for a in alts if a[0] == "ok"])
+            if chk.get("between"):
+                try:
+                    lo, hi = (eval(x, env) for x in chk["between"])
+                    ok = isinstance(got, (int, float)) and lo - 1e-9 <= got <= hi + 1e-9
+                    if chk.get("alts_type") == "int":
+                        ok = ok and tyclass(got) == "int"
+                    res["between"] = [enc_any(lo), enc_any(hi)]
+                except Exception as e:
+                    ok = False
+                    res["between"] = ["E", type(e).__name__]
+            res["ok"] = bool(ok)
+            checks.append(res)
         rec["checks"] = checks
         samples.append(rec)
     out["samples"] = samples
